@@ -6,6 +6,8 @@ import GeoVerif.Proofs.GeohashScale
 import GeoVerif.Proofs.GeorefLoop
 import GeoVerif.Proofs.OSGBInt
 import GeoVerif.Proofs.OSGBScale
+import GeoVerif.Proofs.GridHelpers
+import GeoVerif.Proofs.GeohashDecode
 import GeoVerif.Gen.OSGBC
 import GeoVerif.Props.C16
 /-!
@@ -1335,6 +1337,192 @@ theorem geohash_cell_contains (lat lon : F64) (h1 : F64.gt (F64.abs lat) MathF.q
     rw [this]
 
 end GeohashCell
+
+/-! ### Georef: prefix law across all precisions -/
+
+/-- **prefix law, Georef, tiles → degrees → minutes**: the 2-letter code is a prefix of the 4-letter code, which is a
+prefix of every finer code (all cells) -/
+theorem georef_prefix_coarse (X Y : ℤ) (p : ℤ) (hp : 0 ≤ p) :
+    Georef.encodeInt X Y (-1) <+: Georef.encodeInt X Y 0 ∧ Georef.encodeInt X Y 0 <+: Georef.encodeInt X Y p := by
+  constructor
+  · unfold Georef.encodeInt
+    simp only [show ((-1:ℤ) < 0) from by norm_num, if_true, show ¬ ((0:ℤ) < 0) from by norm_num, if_false]
+    exact List.prefix_append _ _
+  · unfold Georef.encodeInt
+    have h0 : ¬ (p < 0) := by omega
+    simp only [show ¬ ((0:ℤ) < 0) from by norm_num, if_false, if_true, h0]
+    by_cases hz : p = 0
+    · simp [hz]
+    · simp only [hz, if_false]
+      rw [List.append_assoc, List.append_assoc]
+      exact List.prefix_append _ _
+
+/-- **prefix law, Georef, minutes and decimals** (`2 ≤ p`, `p + 1 ≤ 11`, every cell): tile, degree letters and easting
+digits at precision `p` are a prefix of the code at `p + 1`; the northing digits are a prefix of the finer northing digits -/
+theorem georef_prefix (X Y : ℤ) (p : ℕ) (hp2 : 2 ≤ p) (hp : p + 1 ≤ 11) :
+    (Georef.encodeInt X Y p).take (4 + p) <+: Georef.encodeInt X Y (p + 1 : ℕ) ∧
+    (Georef.encodeInt X Y p).drop (4 + p) <+: (Georef.encodeInt X Y (p + 1 : ℕ)).drop (4 + (p + 1)) := by
+  have hm : Georef.m = 60000000000 := rfl
+  have a1 : ¬ ((p:ℤ) < 0) := by omega
+  have a2 : ¬ ((p:ℤ) = 0) := by omega
+  have b1 : ¬ (((p + 1 : ℕ):ℤ) < 0) := by omega
+  have b2 : ¬ (((p + 1 : ℕ):ℤ) = 0) := by omega
+  unfold Georef.encodeInt
+  simp only [a1, a2, b1, b2, if_false, hm, georef_tile, georef_base, georef_maxprec, Int.toNat_natCast]
+  set ilon := X / 60000000000
+  set ilat := Y / 60000000000
+  have hd : ((11:ℤ) - (p:ℤ)).toNat = (11 - (p + 1)) + 1 := by omega
+  have hd' : ((11:ℤ) - ((p + 1 : ℕ):ℤ)).toNat = 11 - (p + 1) := by omega
+  rw [hd, hd']
+  set D : ℤ := 10 ^ (11 - (p + 1)) with hD
+  have hDpos : 0 < D := by positivity
+  have hpow : (10:ℤ) ^ (11 - (p + 1) + 1) = D * 10 := by rw [pow_succ]
+  rw [hpow]
+  have key : ∀ a : ℤ, (a / (D * 10)).toNat = (a / D).toNat / 10 := by
+    intro a
+    rw [← Int.ediv_ediv_of_nonneg (le_of_lt hDpos)]
+    generalize a / D = q
+    rcases lt_or_ge q 0 with h | h
+    · have h1 : q / 10 < 0 := Int.ediv_neg_of_neg_of_pos h (by norm_num)
+      rw [Int.toNat_of_nonpos (le_of_lt h1), Int.toNat_of_nonpos (le_of_lt h)]
+    · obtain ⟨k, rfl⟩ := Int.eq_ofNat_of_zero_le h
+      norm_cast
+  rw [key, key]
+  have ht10 : Int.toNat 10 = 10 := rfl
+  rw [ht10]
+  set xq := ((X - 60000000000 * ilon) / D).toNat
+  set yq := ((Y - 60000000000 * ilat) / D).toNat
+  have hform : ∀ l : List Char, [chr Georef.lontile (ilon / 15).toNat, chr Georef.lattile (ilat / 15).toNat] ++
+      [chr Georef.degrees (ilon % 15).toNat, chr Georef.degrees (ilat % 15).toNat] ++ l =
+      [chr Georef.lontile (ilon / 15).toNat, chr Georef.lattile (ilat / 15).toNat,
+       chr Georef.degrees (ilon % 15).toNat, chr Georef.degrees (ilat % 15).toNat] ++ l := fun _ => rfl
+  simp only [hform]
+  set hd4 := [chr Georef.lontile (ilon / 15).toNat, chr Georef.lattile (ilat / 15).toNat,
+       chr Georef.degrees (ilon % 15).toNat, chr Georef.degrees (ilat % 15).toNat] with hhd4
+  have l4 : hd4.length = 4 := rfl
+  have lx : (digitsW Georef.digits 10 p (xq / 10)).length = p := Digits.digitsW_length _ _ _ _
+  have lx1 : (digitsW Georef.digits 10 (p + 1) xq).length = p + 1 := Digits.digitsW_length _ _ _ _
+  have e1 : (hd4 ++ digitsW Georef.digits 10 p (xq / 10) ++ digitsW Georef.digits 10 p (yq / 10)).take (4 + p)
+      = hd4 ++ digitsW Georef.digits 10 p (xq / 10) := by
+    rw [List.take_append_of_le_length (by simp [l4, lx]), List.take_of_length_le (by simp [l4, lx])]
+  have e2 : (hd4 ++ digitsW Georef.digits 10 p (xq / 10) ++ digitsW Georef.digits 10 p (yq / 10)).drop (4 + p)
+      = digitsW Georef.digits 10 p (yq / 10) := by
+    rw [List.drop_append_of_le_length (by simp [l4, lx]), List.drop_of_length_le (by simp [l4, lx]), List.nil_append]
+  have e3 : (hd4 ++ digitsW Georef.digits 10 (p + 1) xq ++ digitsW Georef.digits 10 (p + 1) yq).drop (4 + (p + 1))
+      = digitsW Georef.digits 10 (p + 1) yq := by
+    rw [List.drop_append_of_le_length (by simp [l4, lx1]), List.drop_of_length_le (by simp [l4, lx1]), List.nil_append]
+  rw [e1, e2, e3]
+  refine ⟨?_, Digits.digitsW_prefix _ _ _ _⟩
+  rw [List.append_assoc]
+  refine (List.prefix_append_right_inj _).mpr ?_
+  exact (Digits.digitsW_prefix Georef.digits 10 p xq).trans (List.prefix_append _ _)
+
+example : String.ofList (Georef.encodeInt (183 * 60000000000 + 12345678901) (95 * 60000000000 + 7) 3) = "NGDF123000" ∧
+    String.ofList (Georef.encodeInt (183 * 60000000000 + 12345678901) (95 * 60000000000 + 7) 4) = "NGDF12340000" := by decide +kernel
+
+/-! ### resolution / precision helper functions; values returned by the decoders (`centerp` arithmetic) -/
+section Helpers
+open GridHelpers F64
+
+/-- `Geohash::LatitudeResolution / LongitudeResolution`: `180/2^⌊5c/2⌋`, `360/2^⌈5c/2⌉`, `c` = length clamped to `[0, 18]`; exact -/
+theorem geohash_resolution_val (len : ℤ) :
+    (Geohash.latRes len).val = 180 / (2:ℚ) ^ (5 * Geohash.clampLen len / 2) ∧
+    (Geohash.lonRes len).val = 360 / (2:ℚ) ^ (5 * Geohash.clampLen len - 5 * Geohash.clampLen len / 2) :=
+  geohash_res_val len
+/-- both resolutions are non-increasing in the length (all integers, clamping included) -/
+theorem geohash_resolution_antitone (a b : ℤ) (h : a ≤ b) :
+    (Geohash.latRes b).val ≤ (Geohash.latRes a).val ∧ (Geohash.lonRes b).val ≤ (Geohash.lonRes a).val :=
+  geohash_res_antitone a b h
+/-- the resolutions are the extents of the cells of `geohash_cell_contains` -/
+theorem geohash_resolution_is_cell (len : ℕ) (h : len ≤ 18) :
+    (Geohash.lonRes len).val = (2:ℚ) ^ (46 - (5 * len + 1) / 2) * (180 / (2:ℚ) ^ (45:ℕ)) ∧
+    (Geohash.latRes len).val = (2:ℚ) ^ (46 - 5 * len / 2) * (90 / (2:ℚ) ^ (45:ℕ)) :=
+  geohash_res_is_cell len h
+/-- **`GeohashLength(res)` is the least length whose longitude resolution is `≤ |res|`**, 18 if there is none below 18
+(every `res`, including NaN, ±∞, 0) -/
+theorem geohash_length_is_least (res : F64) :
+    let L := Geohash.lengthFor res
+    0 ≤ L ∧ L ≤ 18 ∧ (L < 18 → F64.le (Geohash.lonRes L) (F64.abs res) = true) ∧
+    ∀ l : ℕ, (l : ℤ) < L → F64.le (Geohash.lonRes l) (F64.abs res) = false :=
+  geohash_length_least res
+/-- `GeohashLength(LongitudeResolution(l)) = l` and `GeohashLength(LatitudeResolution(l), LongitudeResolution(l)) = l`, `l = 0..18` -/
+theorem geohash_length_of_resolution : ∀ l : Fin 19,
+    Geohash.lengthFor (Geohash.lonRes (l.val : ℤ)) = l.val ∧
+    Geohash.lengthFor2 (Geohash.latRes (l.val : ℤ)) (Geohash.lonRes (l.val : ℤ)) = l.val :=
+  geohash_length_of_res
+/-- `DecimalPrecision(len) = −⌊log₁₀(180/2^⌊5·len/2⌋)⌋`, in integers, `len = 0..18` -/
+theorem geohash_decimal_precision : ∀ l : Fin 19,
+    let d := Geohash.decimalPrecision (l.val : ℤ)
+    let k := 5 * l.val / 2
+    (if 0 ≤ d then 2 ^ k ≤ 180 * 10 ^ d.toNat else 2 ^ k * 10 ^ (-d).toNat ≤ 180) ∧
+    (if 1 ≤ d then 180 * 10 ^ (d - 1).toNat < 2 ^ k else 180 < 2 ^ k * 10 ^ (1 - d).toNat) :=
+  geohash_decimal_precision_spec
+
+/-- `GARS::Resolution`: `1/2`, `1/4` exactly; `1/12` correctly rounded -/
+theorem gars_resolution (prec : ℤ) :
+    (prec ≤ 0 → (GARS.resolution prec).val = 1 / 2) ∧ (prec = 1 → (GARS.resolution prec).val = 1 / 4) ∧
+    (2 ≤ prec → IsRN 53 (-1074) (1 / 12) (GARS.resolution prec).val) :=
+  gars_resolution_val prec
+/-- `GARS::Precision(res)` is the least precision whose resolution is `≤ |res|`, 2 if neither 0 nor 1 is -/
+theorem gars_precision_is_least (res : F64) :
+    let P := GARS.precision res
+    0 ≤ P ∧ P ≤ 2 ∧ (P < 2 → F64.le (GARS.resolution P) (F64.abs res) = true) ∧
+    ∀ q : ℕ, (q : ℤ) < P → F64.le (GARS.resolution q) (F64.abs res) = false :=
+  gars_precision_least res
+theorem gars_precision_resolution (p : ℤ) : GARS.precision (GARS.resolution p) = max 0 (min 2 p) :=
+  gars_precision_of_resolution p
+
+/-- `Georef::Resolution`: 15, 1, or the correctly rounded `1/(60·10^(c−2))`, `c` = `prec` clamped to `[2, 11]` -/
+theorem georef_resolution (prec : ℤ) :
+    (prec < 0 → (Georef.resolution prec).val = 15) ∧ (prec = 0 → (Georef.resolution prec).val = 1) ∧
+    (1 ≤ prec → IsRN 53 (-1074) (1 / (60 * 10 ^ ((max 2 (min 11 prec)) - 2).toNat)) (Georef.resolution prec).val) :=
+  georef_resolution_val prec
+theorem georef_precision_resolution : ∀ p : Fin 12, p.val ≠ 1 →
+    Georef.precision (Georef.resolution (p.val : ℤ)) = p.val :=
+  georef_precision_of_resolution
+/-- `Georef::Precision` is in `[0, 11]` and never 1 (so never −1 either) -/
+theorem georef_precision_in_range (res : F64) :
+    0 ≤ Georef.precision res ∧ Georef.precision res ≤ 11 ∧ Georef.precision res ≠ 1 :=
+  georef_precision_range res
+
+/-- **`GARS::Reverse` value** (`lat1/unit`, both `centerp`): one binary64 division — the correctly rounded rational; exact
+for `unit ∈ {2, 4, 8}`, i.e. precisions 0 and 1, corner and centre (at precision 2, `unit` 12 or 24, thirds appear) -/
+theorem gars_reverse_val (lat1 unit : ℤ) (hl : |lat1| ≤ 2 ^ 40) (hu : 0 < unit ∧ unit ≤ 24) :
+    ∃ r : ℚ, IsRN 53 (-1074) ((lat1:ℚ) / unit) r ∧ HasVal (F64.ofInt lat1 / F64.ofInt unit) r ∧
+      ((unit = 2 ∨ unit = 4 ∨ unit = 8) → r = (lat1:ℚ) / unit) :=
+  gars_reverse_value lat1 unit hl hu
+/-- **`Georef::Reverse` value** (`(15·lat1)/unit`): the correctly rounded rational; exact for tiles (`unit` 1, 2) and
+degree cells (`unit` 15, 30), corner and centre; from the minutes on (`unit = 15·6·10^(p−2)·(1|2)`) one rounding -/
+theorem georef_reverse_val (lat1 unit : ℤ) (hl : |lat1| ≤ 2 ^ 47) (hu : 0 < unit) :
+    ∃ r : ℚ, IsRN 53 (-1074) ((15 * lat1 : ℤ) / (unit:ℚ)) r ∧ HasVal (F64.ofInt (15 * lat1) / F64.ofInt unit) r ∧
+      ((unit = 1 ∨ unit = 2 ∨ unit = 15 ∨ unit = 30) → r = (15 * lat1 : ℤ) / (unit:ℚ)) :=
+  georef_reverse_value lat1 unit hl hu
+
+/-- every string `Geohash::Reverse` accepts: `len = min 18 |s|`, `ulon < 2^⌈5·len/2⌉`, `ulat < 2^⌊5·len/2⌋` -/
+theorem geohash_decode_bounds (s : List ℕ) (d : Geohash.Dec) (h : Geohash.decodeInt s = .ok d) :
+    d.len = min 18 s.length ∧ d.ulon < 2 ^ ((5 * d.len + 1) / 2) ∧ d.ulat < 2 ^ (5 * d.len / 2) :=
+  GeohashDecode.decodeInt_bounds s d h
+/-- **`Geohash::Reverse` is exact** for every accepted string, every length, centre and south-west corner: the half-cell
+offset is one more bit of the integer, the product by `180/2^45` (`90/2^45`) and the subtraction involve no rounding -/
+theorem geohash_reverse_exact (s : List ℕ) (cp : Bool) (d : Geohash.Dec) (h : Geohash.decodeInt s = .ok d)
+    (hinv : Geohash.isInvalid s = false) :
+    ∃ lat lon : F64, Geohash.reverse s cp = .ok (.val lat lon d.len) ∧
+      HasVal lon ((((2 * d.ulon + (if cp then 1 else 0)) <<< (5 * (18 - d.len) / 2) : ℕ) : ℚ) * (180 / (2:ℚ) ^ (45:ℕ)) - 180) ∧
+      HasVal lat ((((2 * d.ulat + (if cp then 1 else 0)) <<< (5 * (18 - d.len) - 5 * (18 - d.len) / 2) : ℕ) : ℚ) * (90 / (2:ℚ) ^ (45:ℕ)) - 90) :=
+  GeohashDecode.reverse_exact s cp d h hinv
+/-- **`geohash_accept_iff`**: accepted ⇔ each of the first 18 characters is in the base-32 alphabet (either case) -/
+theorem geohash_accept_iff (s : List ℕ) :
+    (∃ d, Geohash.decodeInt s = .ok d) ↔ ∀ c ∈ s.take 18, (lookup Geohash.uc c).isSome = true :=
+  GeohashDecode.accept_iff s
+
+/-! non-vacuity -/
+example : F64.le (Geohash.lonRes 7) (F64.abs (F64.fin true 1 (-9))) = true ∧ Geohash.lengthFor (F64.fin true 1 (-9)) = 7 := by
+  decide +kernel
+example : Geohash.isInvalid (toBytes "ezs42".toList) = false ∧
+    (match Geohash.decodeInt (toBytes "ezs42".toList) with | .ok d => decide (d.len = 5) | .error _ => false) = true := by decide +kernel
+example : GARS.precision (F64.fin false 1 (-2)) = 1 ∧ Georef.precision (F64.fin false 1 (-10)) = 4 := by decide +kernel
+
+end Helpers
 
 /-! ### OSGB grid references: the integer codec (all inputs), the floating part (all inputs), constants of the projection -/
 section OSGB
